@@ -249,7 +249,9 @@ impl Storm {
             let st = marginfi::instructions::StakedSettingsConfig { oracle: sol_oracle, asset_weight_init: wi(0.8), asset_weight_maint: wi(0.9), deposit_limit: u64::MAX, total_asset_value_init_limit: 0, oracle_max_age: 600, risk_tier: RiskTier::Collateral };
             let i = ix::init_staked_settings(w.groups[g].key, admin.pubkey(), p, st);
             if w.raw_send(&[i], &[&admin]).await.ok() {
-                let _ = w.add_staked_bank(g, sol_oracle, 101_000_000_000, 0).await;
+                // pools from two SOL (the single pool keeps one SOL that is not redeemable) to a million
+                let stake = pick(&mut r, &[2_000_000_000u64, 5_000_000_000, 101_000_000_000, 1_000_000_000_000_000]);
+                let _ = w.add_staked_bank(g, sol_oracle, stake, 0).await;
             }
         }
         let staked_mint = if cfg.with_staked { w.mints.len().checked_sub(1) } else { None };
